@@ -17,6 +17,26 @@ Theorem C16_same_callables_and_docstrings : forall moddoc body,
 Proof. exact static_dynamic_agree. Qed.
 Print Assumptions C16_same_callables_and_docstrings.
 
+(* the same under the weaker hypothesis that only CLASS names are not bound again: functions may be defined
+   twice (conditional redefinition, overload stubs followed by the implementation) or be replaced by a class
+   later; both analyses then report the last definition, once *)
+Theorem C16_same_with_redefinitions : forall moddoc body,
+  BoundNoDotList body -> NoClassRebind (tbinds_list body) ->
+  dyn_module moddoc body = visit_module moddoc body.
+Proof. exact static_dynamic_agree_rebind. Qed.
+Print Assumptions C16_same_with_redefinitions.
+
+(* that hypothesis is met by a module that defines f twice and replaces the function g by a class g *)
+Theorem C16_redefinition_example :
+  let F := [102%N] in let G := [103%N] in
+  let body := [SNode NK_Func F false (Some 1%nat) []; SNode NK_Func G false None [];
+               SNode NK_Other [] false None [SNode NK_Func F false (Some 2%nat) []];
+               SNode NK_Class G false (Some 3%nat) [SNode NK_Func F false (Some 4%nat) []]] in
+  NoClassRebind (tbinds_list body) /\ ~ NoDup (binds_list body) /\
+  visit_module None body = [(F, Some 2%nat); (G, Some 3%nat); (G ++ [DOT] ++ F, Some 4%nat)].
+Proof. exact redefinition_allowed. Qed.
+Print Assumptions C16_redefinition_example.
+
 (* inside a class body the two traversals coincide unconditionally *)
 Theorem C16_class_members_agree : forall n c acc, dyn (Some c) n acc = visit (Some c) n acc.
 Proof. exact dyn_in_class. Qed.
